@@ -9,8 +9,8 @@ import (
 
 func init() {
 	register(&propDef{
-		id:  "C12",
-		run: runC12,
+		id:          "C12",
+		run:         runC12,
 		explanation: "Static analysis of the journal framing code: (1) acceptance gates — the reader accepts a chunk (returns nil from nextChunk) only after the header is non-zero, the chunk type is in range, the length stays inside the block, the CRC matches (checksums on) and, for the first chunk of a record, the type is full/first; continuation chunks are read only while the record is not finished; (2) bounds — the writer starts a new block when fewer than 7 bytes remain and its header filler asserts i+7<=j<=blockSize; (3) writer/reader agreement — the checksummed range, the length field, the type byte and the payload start are at the same offsets relative to the chunk start on both sides, with the same header and block size constants (sibling comparison of normalised offset expressions); (4) the writer latches errors. These are the gates without which the reader can yield a record that was not written, or index out of range. Round-trip equality and damage containment over all byte streams are NOT decidable statically and are not claimed.",
 		notCovered:  "record sequences, flush patterns, truncation offsets, the 'only records touching the damaged block are lost' rule; round-trip equality",
 		assumptions: []string{"util.NewCRC is CRC-32C with the leveldb mask on both sides (shared function)"},
@@ -42,18 +42,18 @@ func runC12(p *Prog, r *Report) {
 			nv := mFieldLoad(tJR, "n")
 			hdr := func(v ssa.Value) bool { k, ok := offsetFrom(v, tJR, "j"); return ok && k == 7 && !jv(v) }
 			atoms := []Atom{
-				cmpAtom("j+7<=n (header inside the block)", token.LEQ, hdr, nv),       // 0
-				cmpAtom("checksum==0", token.EQL, sum, mConstInt(0)),                   // 1
-				cmpAtom("length==0", token.EQL, length, mConstInt(0)),                  // 2
-				cmpAtom("type==0", token.EQL, typ, mConstInt(0)),                       // 3
-				cmpAtom("type<1", token.LSS, typ, mConstInt(1)),                        // 4
-				cmpAtom("type>4", token.GTR, typ, mConstInt(4)),                        // 5
-				cmpAtom("j>n (length overflows the block)", token.GTR, jv, nv),         // 6
-				boolAtom("r.checksum", mFieldLoad(tJR, "checksum")),                    // 7
+				cmpAtom("j+7<=n (header inside the block)", token.LEQ, hdr, nv),                          // 0
+				cmpAtom("checksum==0", token.EQL, sum, mConstInt(0)),                                     // 1
+				cmpAtom("length==0", token.EQL, length, mConstInt(0)),                                    // 2
+				cmpAtom("type==0", token.EQL, typ, mConstInt(0)),                                         // 3
+				cmpAtom("type<1", token.LSS, typ, mConstInt(1)),                                          // 4
+				cmpAtom("type>4", token.GTR, typ, mConstInt(4)),                                          // 5
+				cmpAtom("j>n (length overflows the block)", token.GTR, jv, nv),                           // 6
+				boolAtom("r.checksum", mFieldLoad(tJR, "checksum")),                                      // 7
 				cmpAtom("stored CRC != computed CRC", token.NEQ, sum, mCall("(leveldb/util.CRC).Value")), // 8
-				boolAtom("first", mParam("first")),                                     // 9
-				cmpAtom("type!=full", token.NEQ, typ, mConstInt(1)),                    // 10
-				cmpAtom("type!=first", token.NEQ, typ, mConstInt(2)),                   // 11
+				boolAtom("first", mParam("first")),                                                       // 9
+				cmpAtom("type!=full", token.NEQ, typ, mConstInt(1)),                                      // 10
+				cmpAtom("type!=first", token.NEQ, typ, mConstInt(2)),                                     // 11
 			}
 			G := func(a []bool) bool {
 				return a[0] && !(a[1] && a[2] && a[3]) && !a[4] && !a[5] && !a[6] && !(a[7] && a[8]) && !(a[9] && a[10] && a[11])
